@@ -408,6 +408,7 @@ func main() {
 	clonem := flag.Bool("clone", false, "C14: alias correspondence of CloneObject + mutate-after-store probes")
 	conc := flag.Bool("conc", false, "C08: concurrent workloads on one handle (build with -race)")
 	snake := flag.Bool("snake", false, "C18: print camelToSnake of every string over a small alphabet (hex in, hex out)")
+	tagsm := flag.Bool("tags", false, "C16: descriptors derived from struct tags in every option order + end-to-end probes")
 	pair := flag.Bool("pair", false, "C12: run every history under a pair of configurations and compare (model-free)")
 	flag.Parse()
 
@@ -434,6 +435,11 @@ func main() {
 		for i := 0; i < *n; i++ {
 			fails += runFuzz19(w, *first+i, *seed*1000003+int64(*first+i))
 		}
+		w.Flush()
+		return
+	}
+	if *tagsm {
+		runTags(w)
 		w.Flush()
 		return
 	}
